@@ -397,6 +397,9 @@ func histReplay(r *core.Run, m *histModel, h *header, allowOf func(target, overr
 				o := &outs[i].Outs[si][pi]
 				if len(o.Errors) > 0 {
 					rejected++
+					if i == 0 && progs[pi].Bundle == (s.Api == "build") {
+						r.Drift("helper census: program %s does not build for esnext with its trigger off: %v", progs[pi].Name, o.Errors)
+					}
 					continue
 				}
 				year := 0
